@@ -68,12 +68,17 @@ impl<C: Suite> M12<C> {
     pub fn new(tier: Tier, seed: u64) -> Self {
         let mut insts = vec![];
         for s in SCHEMES {
-            for (t, n) in grid(tier) {
+            // every (t,n) with one message; the (2,3) instance again with the boundary message lengths
+            let mut todo: Vec<(usize, usize, usize)> = grid(tier).into_iter().map(|(t, n)| (t, n, 20 + t)).collect();
+            for l in [0usize, 1, 30, 31, 32, 33, 127, 128, 4096] {
+                todo.push((2, 3, l));
+            }
+            for (t, n, mlen) in todo {
                 let sk = SecretKey::<C>::from_hash(format!("c12-{}-{}-{}", s.name(), t, n));
                 let shares = sk.split_with_rng(t, n, rand_chacha::ChaCha20Rng::from_seed(data32(seed, &format!("c12-split-{}-{}", t, n)))).unwrap();
                 let pks = shares.iter().map(|x| x.public_key().unwrap()).collect();
-                let msg = msg_of(seed, 20 + t, 3);
-                let ent = entropy_stream(seed, &format!("c12-{}-{}-{}", s.name(), t, n), 2);
+                let msg = msg_of(seed, mlen, 3);
+                let ent = entropy_stream(seed, &format!("c12-{}-{}-{}-{}", s.name(), t, n, mlen), 2);
                 let pk = sk.public_key();
                 let (ct, ct2) = with_env(ent, None, || (pk.sign_crypt(lib_scheme(s), &msg), pk.sign_crypt(lib_scheme(s), &msg))).unwrap();
                 let ds = shares.iter().map(|x| ct.create_decryption_share(x).unwrap()).collect();
@@ -133,7 +138,7 @@ impl<C: Suite> Model for M12<C> {
     }
     fn describe(&self, st: &St) -> String {
         let it = &self.insts[st.inst];
-        format!("{} ciphertext scheme {} ({},{}) decryption shares of ids {:?} fault {:?}: decrypt_with_shares / SignCryptDecryptionKey::from_shares", C::G, it.s.name(), it.t, it.n, st.seq, st.fault)
+        format!("{} ciphertext scheme {} ({},{}) message of {} bytes, decryption shares of ids {:?} fault {:?}: decrypt_with_shares / SignCryptDecryptionKey::from_shares", C::G, it.s.name(), it.t, it.n, it.msg.len(), st.seq, st.fault)
     }
     fn required_outcomes(&self) -> Vec<String> {
         vec!["qualified:message".into(), "below-threshold:not-the-message".into(), "matrix:own:accept".into(), "matrix:other-key:reject".into(), "matrix:other-ciphertext:reject".into(), "fault:not-the-message".into()]
@@ -196,6 +201,9 @@ impl<C: Suite> Model for M12<C> {
         };
         o.record("direct", direct.as_deref().unwrap_or(b"<none>"));
         let via_msg: Option<Vec<u8>> = viakey.as_ref().ok().cloned().flatten();
+        // a wrong key still produces *some* plaintext; for a message of L bytes it equals the original with probability
+        // 2^-8(L+1) by the framing alone, so "never the original message" is judged for messages of at least 8 bytes
+        let judge_never = it.msg.len() >= 8;
         let got_direct = direct.as_ref() == Some(&it.msg);
         let got_via = via_msg.as_ref() == Some(&it.msg);
         let key = |what: &str| format!("C12:{}:{}:{}:{}", what, g, sn, cls);
@@ -206,10 +214,12 @@ impl<C: Suite> Model for M12<C> {
             match st.fault {
                 Some(Fault::Dup(_)) | Some(Fault::ZeroId(_)) => {
                     o.expect(&key("faulty-set-refused"), viakey.is_err(), "from_shares is Err", "Ok");
-                    o.expect(&key("faulty-set-direct"), !got_direct, "not the message", "the message");
+                    if judge_never {
+                        o.expect(&key("faulty-set-direct"), !got_direct, "not the message", "the message");
+                    }
                 }
                 _ => {
-                    if k >= 2 {
+                    if k >= 2 && judge_never {
                         o.expect(&key("share-of-other-ciphertext"), !bad, "never the original message", "the message");
                     }
                 }
@@ -225,7 +235,9 @@ impl<C: Suite> Model for M12<C> {
             o.expect(&key("combined-key-decrypt-qualified"), got_via, "the original message", &format!("{:?}", via_msg.as_ref().map(|m| m.len())));
         } else {
             o.outcome(if !got_direct && !got_via { "below-threshold:not-the-message" } else { "below-threshold:the-message" });
-            o.expect(&key("below-threshold"), !got_direct && !got_via, "never the original message", "the message");
+            if judge_never {
+                o.expect(&key("below-threshold"), !got_direct && !got_via, "never the original message", "the message");
+            }
         }
         // reference: interpolate the share points independently and open
         if k >= 2 {
@@ -292,5 +304,5 @@ pub fn describe(tier: Tier, r: &mut Report) {
     r.rule = "share-collection machine over signcryption decryption shares per (group, ciphertext scheme in all three, (t,n)): every subset of shares (ascending) plus one fault (duplicate, zero identifier, share made for another ciphertext, transport through a codec, reverse order); every state decrypts directly and through a combined decryption key and compares with the message, the threshold rule and an independent interpolation + reference open; the root state checks the full share x key-share x ciphertext verification matrix against the property's table and the reference pairing equation".into();
     r.deviation_bound_completed = "1 fault on every collected set".into();
     r.alphabet.insert("grid".into(), serde_json::json!(grid(tier)));
-    r.assumptions = vec!["'fewer than t shares never return the original message' is observed on the enumerated subsets (such a call may legitimately return Some(other bytes))".into()];
+    r.assumptions = vec!["'fewer than t shares never return the original message' is observed on the enumerated subsets (such a call may legitimately return Some(other bytes)) and judged for messages of at least 8 bytes: a wrong key yields some plaintext, which equals an L byte original with probability 2^-8(L+1) by the framing alone (seen once for the empty message while building this check: a false alarm of the oracle, not of the library)".into()];
 }
